@@ -233,7 +233,10 @@ def check_tree(b, bp, ref, mi, tree, classes, res: Result, w, routes=ROUTES):
             n = fi.number
             sigbase = [route, fi.cls_key(), classes.get(n, "never")]
             if n in must and n not in wire:
-                vc = value_class(fi.kind, tree[n]) if not isinstance(tree[n], (list, dict)) else "container"
+                if isinstance(tree[n], dict) and fi.kind == "message" and fi.label != "map":
+                    vc = value_class(fi.kind, tree[n], b, fi.type_name)
+                else:
+                    vc = value_class(fi.kind, tree[n]) if not isinstance(tree[n], (list, dict)) else "container"
                 res.violation("not-emitted", sigbase + [vc, "set-but-not-on-wire"],
                               f"{mi.full_name}.{fi.name} ({fi.cls_key()}) set to {tree[n]!r} via {route} is not on the wire: {data.hex()[:160]}", ww)
             if n in must_not and n in wire:
